@@ -29,9 +29,9 @@ def main():
     r = sh('git -C %s apply %s' % (REPO, patch))
     if r.returncode != 0:
         r = sh('git -C %s apply --3way %s' % (REPO, patch))
-        if r.returncode != 0:
+        if r.returncode != 0 or 'with conflicts' in (r.stderr + r.stdout):
             print('patch does not apply:', r.stderr[-500:])
-            sh('git -C %s checkout -- . && git -C %s reset -q' % (REPO, REPO))
+            sh('git -C %s reset -q --hard HEAD' % REPO)
             return 2
         sh('git -C %s reset -q' % REPO)
     try:
@@ -44,7 +44,7 @@ def main():
             tail = [l for l in c.stdout.splitlines() if l.startswith(('VIOLATION', 'KNOWN', '# C', '# DIS', '# INFRA'))]
             print('%s rc=%d\n  %s' % (p, c.returncode, '\n  '.join(tail[-6:])))
     finally:
-        sh('git -C %s checkout -- .' % REPO)
+        sh('git -C %s reset -q --hard HEAD' % REPO)
         sh('git -C %s clean -fdq -- t4_geom_convert MIP' % REPO)
     return 0
 
